@@ -140,7 +140,7 @@ PEER_NH = [(1, 1, 2), (1, 128, 2), (2, 1, 1)]
 STYLES = ['one-per-param', 'all-in-one', 'extended', 'extended-len1', 'pad253', 'pad254', 'pad255']
 PAD_CAP = 98
 ORDERS = ['canon', 'reversed', 'rotated', 'dup-all', 'dup-reversed']
-RR_KINDS = ['rr+err', 'none', 'rr', 'err', 'rr128']
+RR_KINDS = ['rr+err', 'none', 'rr', 'err', 'rr128', 'rr+rr128']
 PEER_DEFAULT = dict(ver=4, asf=65002, asn4=(65002,), hold=90, rid='9.9.9.9', fams=15, ap=(3, 3, 3), xnh=3, rr='rr+err',
                     xm=True, unk=False, gr=True, style='one-per-param', order='canon')
 GR_VALUE = bytes.fromhex('0078' '00010180')
@@ -157,7 +157,7 @@ def peer_tokens(p: dict) -> list:
     nh = [list(x) for i, x in enumerate(PEER_NH) if p['xnh'] >> i & 1]
     if nh:
         t.append(['xnh', nh])
-    t += {'none': [], 'rr': [['rr']], 'err': [['err']], 'rr+err': [['rr'], ['err']], 'rr128': [['rr128']]}[p['rr']]
+    t += {'none': [], 'rr': [['rr']], 'err': [['err']], 'rr+err': [['rr'], ['err']], 'rr128': [['rr128']], 'rr+rr128': [['rr'], ['rr128']]}[p['rr']]
     if p['xm']:
         t.append(['xm'])
     if p['unk']:
@@ -745,6 +745,9 @@ PRIORS = {
     'all-on': (dict(OUR_DEFAULT), dict(PEER_DEFAULT)),
     'all-off': (dict(OUR_DEFAULT, asn4=False, ap='off', xnh=False, rr=False, xm=False, gr=False, hold=3, fams=1),
                 dict(PEER_DEFAULT, asn4=(), ap=(0, 0, 0), xnh=0, rr='none', xm=False, gr=False, hold=3, fams=1)),
+    # the peer of the session before advertised route refresh under the pre-standard code 128 last (after code 2): the
+    # capability classes registered under two codes are looked up by code, and what is decoded must not leak into what is sent
+    'cisco-rr': (dict(OUR_DEFAULT), dict(PEER_DEFAULT, rr='rr+rr128')),
 }
 PRIOR_NAMES = sorted(PRIORS)
 
@@ -761,9 +764,15 @@ def after_at(index: int):
 
 def check_after(prior: str, our: dict, pc: dict):
     pour, pp = PRIORS[prior]
+    alone = {sig for sig, _ in check_config(our)[0]}   # what L1 says of this configuration on its own
     check_pair(pour, peer_case(pp))          # the session before: its own verdict belongs to L2
+    # our OPEN is built again now, after the other session (as a daemon builds it for every new session), and must still
+    # advertise exactly what the configuration enables
+    _SIDES.pop(our_key(our), None)
+    cviols, _ck, _cn = check_config(our)
     viols, key, nt = check_pair(our, pc)
-    return [('after-session:' + prior + ':' + sig, what + f' [negotiated right after a session with everything {prior.split("-")[1]}]') for sig, what in viols], key, nt
+    viols = [(sig, what) for sig, what in cviols if sig not in alone] + viols
+    return [('after-session:' + prior + ':' + sig, what + f' [negotiated right after the session "{prior}"]') for sig, what in viols], key, nt
 
 
 def _case_of(layer, our, pc=None, name=None):
